@@ -63,6 +63,16 @@ def run(eng, tier):
             for pred, val in required:
                 eng.ob(('val', pred, val) in common, PROP, 'guard-abort', '%s:%s' % (v, K(pred)),
                        '%s: an abort site after a storage write is reachable without [%s]' % (v, K(pred)), where=a['site'])
+    # role lists changed by configuration requests take effect: a supplied list is what gets stored
+    from c12 import validated_list
+    for p in eng.paths('execute', 'ok', 'ModifyContract'):
+        for fld in ('executors', 'approvers'):
+            mv = M('ModifyContract', fld)
+            if p.variant_of(mv) != 'Some': continue
+            saves = [w for w in p.writes if w['ns'] == 'contract_info' and w['op'] == 'save']
+            ok = len(saves) == 1 and validated_list(SOMEV(mv), nget(saves[0]['val'], (('f', fld),)))
+            eng.ob(ok, PROP, 'role-list-installed', fld, 'an accepted ModifyContract supplying %s does not store exactly that list (a removed address would keep its role)' % fld,
+                   where=(saves[0]['site'] if saves else None), detail=p.describe(12))
     # who may write: writes under `execute` only in classified variants
     for p in eng.paths('execute'):
         if p.writes and p.variant not in TABLE and p.variant not in OPEN_VARIANTS:
